@@ -4,8 +4,14 @@ PROPS = {
         sim=[('frames', 40, 1500, [1000035, 1000601])],   # corpus: raw seeds that exhibited MAX_STREAM_DATA-beyond-limit (phantom streams)
         modelled="system level (scenario frames): a real Connection as hostile but authenticated peer emits attacker-chosen frame bytes "
                  "in correctly protected Initial/Handshake/1-RTT packets (Connection::verif_inject_frames); oracles on the honest side: no panic, "
-                 "bystander connection unaffected, queue sizes / opened-stream count within configuration-derived bounds after every injected datagram, bounded steps",
-        not_modelled="legal datagrams must not close the victim, A's workload content oracle holds on the legal prefix; NOT modelled: the frame admissibility / error-class table as a Lean model (Conn/FrameRules.lean, op frules) is not built yet: the scenario records the "
-                     "request lines only with VERIF_FRULES=1; 0-RTT packets; hostile transport parameters",
+                 "bystander unaffected, legal datagrams never close the victim, the victim's workload content oracle on the legal prefix, queue sizes / "
+                 "opened-stream count within configuration-derived bounds, CONNECTION_CLOSE code = reported code, bounded steps; "
+                 "Conn/FrameRules.lean: frame admissibility / error-class table mirroring process_early_payload / process_payload, read_crypto, on_ack_received (error exits), "
+                 "PacketNumberFilter::check_ack, the STREAM_DATA_BLOCKED / STREAMS_BLOCKED / STOP_SENDING / NEW_TOKEN / HANDSHAKE_DONE / PATH_RESPONSE arms, received_max_stream_data, "
+                 "reusing Streams (validate_receive_id, Recv::ingest, Recv::reset, received_max_streams), CidQueue.onNewConnectionId, CidState.onCidRetirement, "
+                 "AckFrequency.ackFrequencyReceived, Datagrams.received; 40 T1 anchors (tools/gen.d/framerules.py) pin every check and the code it returns; "
+                 "T2: every processed injected datagram is a `frules` request (facts observed before the datagram) whose predicted outcome must equal the observed one",
+        not_modelled="0-RTT packets (the two is_0rtt PROTOCOL_VIOLATION cases); the TLS engine's reaction to CRYPTO bytes and the CRYPTO assembler's chunk limit (verdict `may`); "
+                     "frames whose facts an earlier frame of the same datagram may have changed are judged only by the code list of their kind; hostile transport parameters",
     ),
 }
